@@ -2,4 +2,4 @@ From MV Require Import Lib.ExtractBase C14.Model.
 From Coq Require Import ExtrOcamlBasic.
 Extraction Language OCaml.
 Extraction "c14_model" force_types init step freed_count
-  cnt to_exit queue next_id reg g_enq g_relfail g_relexit g_relclear g_leaked g_late w_req w_seen returned thr.
+  cnt to_exit queue next_id reg g_enq g_relfail g_relexit g_relclear g_relclose g_leaked g_late w_req w_seen returned thr.
